@@ -1773,6 +1773,25 @@ void __tsan_atomic_signal_fence(int) {}
 
 } // extern "C"
 
+// ================================================================================================ exception objects
+// libstdc++ takes exception objects from malloc and recycles them across threads; the (instrumented) constructor of the
+// next exception at the same address must not be reported as racing with the previous thread's accesses.
+extern "C" void* __cxa_allocate_exception(size_t thrown_size) noexcept {
+  typedef void* (*fn_t)(size_t);
+  static fn_t real = (fn_t)dlsym(RTLD_NEXT, "__cxa_allocate_exception");
+  void* p = real(thrown_size);
+  if (p && G.cells)
+    for (uintptr_t w = (uintptr_t)p & ~(uintptr_t)7; w < (uintptr_t)p + thrown_size; w += 8) {
+      Cell* c = cell_get(w, false);
+      if (c) {
+        memset(c->clk, 0, sizeof c->clk);
+        memset(c->mask, 0, sizeof c->mask);
+        c->has_atomic = 0;
+      }
+    }
+  return p;
+}
+
 // ================================================================================================ operator new/delete
 void* operator new(size_t n) { return heap_alloc(n, 16); }
 void* operator new[](size_t n) { return heap_alloc(n, 16); }
